@@ -240,6 +240,45 @@ func ruleC13Math(c *ctx.Ctx, r *core.Reporter) {
 			return true
 		})
 	}
+	// no function of the math overlay squeezes a float64 through a 32-bit integer: int(x), int32(x),
+	// uint32(x) of a floating-point operand wrap beyond 2^31 (the bit-pattern helpers convert integers only)
+	{
+		narrow := 0
+		sites := []string{}
+		for _, f := range nat.PkgFiles("math") {
+			if f.Test {
+				continue
+			}
+			for _, d := range f.AST.Decls {
+				fd, ok := d.(*ast.FuncDecl)
+				if !ok || fd.Body == nil {
+					continue
+				}
+				floats := map[string]bool{}
+				for _, fl := range fd.Type.Params.List {
+					if id, ok := fl.Type.(*ast.Ident); ok && (id.Name == "float64" || id.Name == "float32") {
+						for _, nm := range fl.Names {
+							floats[nm.Name] = true
+						}
+					}
+				}
+				ast.Inspect(fd.Body, func(n ast.Node) bool {
+					call, ok := n.(*ast.CallExpr)
+					if !ok || len(call.Args) != 1 {
+						return true
+					}
+					if id, ok := call.Fun.(*ast.Ident); ok && (id.Name == "int" || id.Name == "int32" || id.Name == "uint32" || id.Name == "uint") {
+						if a, ok := ast.Unparen(call.Args[0]).(*ast.Ident); ok && floats[a.Name] {
+							narrow++
+							sites = append(sites, fd.Name.Name+": "+printNode(nat.Fset, call))
+						}
+					}
+					return true
+				})
+			}
+		}
+		r.Check(narrow == 0, "no-32-bit-detour", nativesRootRel+"/math/math.go", fmt.Sprintf("no floating-point parameter is converted to a 32-bit integer type on the way to a floating-point result (%v)", sites))
+	}
 	r.Check(mathVar, "delegate:math-object", nativesRootRel+"/math/math.go", "the delegation target `math` is JavaScript's global Math object")
 	// bit-pattern pairs
 	idx := func(fd *ast.FuncDecl, arr string) []string {
